@@ -13,7 +13,7 @@ used = {}
 for m in glob.glob(os.path.join(V, "seeded", "*", "meta.json")):
     try: j = json.load(open(m))
     except Exception: continue
-    used.setdefault(j.get("property"), []).append(j.get("summary", "")[:260].replace("\n", " "))
+    used.setdefault(j.get("property"), []).append(j.get("summary", "")[:420].replace("\n", " "))
 os.makedirs("/tmp/mut/prompts", exist_ok=True)
 for pid in ids:
     p = props[pid]; name = f"{letter}{pid[1:]}"; wt = f"/tmp/mut/{name}"
